@@ -7,4 +7,26 @@
  * need the fact at the loop's exit offset are guarded by (vg_exit == j), and j is arbitrary */
 #define VCSTR_EXACT_AT(p, n, j) (VCSTR_FRESH(p, n) && (!((j) < (n)) || ((const char *)(p))[(j)] != 0))
 #define VMIN(a, b) ((a) < (b) ? (a) : (b))
+
+/* ---- owner strhelp ------------------------------------------------------------------------- */
+#define VOFF(p) __CPROVER_POINTER_OFFSET(p)
+/* offset of p relative to q (same object) */
+#define VREL(p, q) (VOFF(p) - VOFF(q))
+/* anchor relative to a base pointer that need not be the start of its object (safe_strncpy is
+ * called by safe_strncat with dest + len) */
+#define VERIF_ANCHOR_REL(p, base) do { \
+    __CPROVER_assert(__CPROVER_same_object((p), (base)), "anchor: " #p " stays inside object of " #base); \
+    (p) = (base) + VREL(p, base); } while (0)
+/* a C string of exactly n characters at the start of its own object of cap bytes (cap > n: slack
+ * bytes after the terminator exist and must stay untouched); exactness instantiated at ghost j */
+#define VCSTR_IN_BUF_AT(p, n, cap, j) ((cap) <= VCAP && (n) < (cap) && __CPROVER_is_fresh((p), (cap)) && \
+    ((const char *)(p))[(n)] == 0 && (!((j) < (n)) || ((const char *)(p))[(j)] != 0))
+/* ctype reference predicates written from the C standard ("C" locale), on the VALUE the property
+ * speaks about (the byte as unsigned char) */
+#define V_ISSPACE(c) ((c) == ' ' || (c) == '\t' || (c) == '\n' || (c) == '\v' || (c) == '\f' || (c) == '\r')
+#define V_ISUPPER(c) ((c) >= 'A' && (c) <= 'Z')
+#define V_ISLOWER(c) ((c) >= 'a' && (c) <= 'z')
+#define V_ISCNTRL(c) (((c) >= 0 && (c) < 32) || (c) == 127)
+#define V_TOLOWER(c) (V_ISUPPER(c) ? (c) + ('a' - 'A') : (c))
+#define V_TOUPPER(c) (V_ISLOWER(c) ? (c) - ('a' - 'A') : (c))
 #endif
